@@ -5,7 +5,7 @@
            has a recorded pre-value (the node was loaded before it was removed). *)
 From GV Require Import Lib.Tactics Lib.Bytes Rlp.Codec Trie.Hex Trie.Node Trie.Ops Trie.Hash.
 From GV Require Import Trie.OpsProofs Trie.Canon Trie.Proof Trie.ProofProofs.
-From GV Require Import Trie.Commit Trie.CommitProofs Trie.CommitTracer Trie.X.CommitReads Trie.X.CommitSim Trie.X.CommitSimDel Trie.X.CommitHist Trie.X.CommitEvents Trie.X.CommitTrace Trie.X.CommitPv.
+From GV Require Import Trie.Commit Trie.CommitProofs Trie.CommitTracer Trie.CommitReads Trie.CommitSim Trie.CommitSimDel Trie.CommitHist Trie.CommitEvents Trie.CommitTrace Trie.CommitPv.
 Local Open Scope N_scope.
 
 Definition pvd (tr : tracer) (a : list N) : Prop := am_has a (tr_pv tr) = true.
